@@ -185,13 +185,25 @@ func (bs *filesystemPartStore) PutPart(ctx context.Context, tx database.Tx, part
 		return nil
 	}
 
-	f, err := os.OpenFile(filename, os.O_CREATE|os.O_TRUNC|os.O_WRONLY, 0o600)
+	// Without a transaction the part is published immediately. Write it to a
+	// temporary file and rename it into place, so that a concurrent reader (or a
+	// crash) sees the old or the new content, never a truncated or mixed file.
+	tempFile, err := os.CreateTemp(bs.root, "."+filepath.Base(filename)+".*.tmp")
 	if err != nil {
 		return err
 	}
-	defer f.Close()
-	_, err = ioutils.Copy(f, reader)
-	if err != nil {
+	tempName := tempFile.Name()
+	if _, err = ioutils.Copy(tempFile, reader); err != nil {
+		_ = tempFile.Close()
+		_ = os.Remove(tempName)
+		return err
+	}
+	if err = tempFile.Close(); err != nil {
+		_ = os.Remove(tempName)
+		return err
+	}
+	if err = os.Rename(tempName, filename); err != nil {
+		_ = os.Remove(tempName)
 		return err
 	}
 
